@@ -20,8 +20,8 @@ Definition expand (h : hop) : list op :=
 
 Inductive selector :=
 | STyped (ts : list string) (ids : list val) (fs : list fspec)
-| SDomainAxes (ids : list val)
-| SCellMethods (ids : list val).
+| SDomainAxes (ids : list val) (fs : list fspec)
+| SCellMethods (ids : list val) (fs : list fspec).
 
 Inductive query :=
 | QOps (ops : list hop)
@@ -37,8 +37,8 @@ Inductive obs :=
 Definition select (V : variant) (E : env) (s : selector) : result (list construct) :=
   match s with
   | STyped ts ids fs => run_chain V E AAnd ["and"] (typed_filters ts ids fs) (e_self E)
-  | SDomainAxes ids => Ok (domain_axes V E ids)
-  | SCellMethods ids => Ok (cell_methods V E ids)
+  | SDomainAxes ids fs => domain_axes V E fs ids
+  | SCellMethods ids fs => cell_methods V E fs ids
   end.
 
 Definition strs_eqb := list_eqb String.eqb.
